@@ -284,50 +284,229 @@ func unop(fr *frame, instr *ssa.UnOp, x value) value {
 			}
 			return load(deref(instr.X.Type()), x)
 		case symaddr:
-			return loadSym(x)
+			return fr.loadSym(deref(instr.X.Type()), x)
 		}
 	}
 	return unopConcrete(instr, x)
 }
 
-// loadSym reads a scalar through a symbolic index.
-func loadSym(a symaddr) value {
-	// all cells are scalars of one kind
-	var res *sym.Term
-	k := types.Invalid
-	im := false
-	for _, c := range a.cells {
-		if s, ok := c.(sv); ok && s.T.Sort.K == sym.KInt {
-			im = true
+// follow walks path below v.
+func follow(v value, path []int) value {
+	for _, k := range path {
+		switch x := v.(type) {
+		case structure:
+			v = x[k]
+		case array:
+			v = x[k]
+		default:
+			panic(fmt.Sprintf("follow: %T", v))
 		}
 	}
-	for i := len(a.cells) - 1; i >= 0; i-- {
-		c := a.cells[i]
-		if k == types.Invalid {
-			k = kindOf(c)
-		}
-		t := termOf(c, im)
-		if res == nil {
-			res = t
-		} else {
-			res = sym.Ite(sym.Eq(a.idx, sym.BVConst(64, uint64(i))), t, res)
-		}
-	}
-	return mkScalar(res, k)
+	return v
 }
 
-func (i *interpreter) storeSym(a symaddr, v value) {
-	im := false
-	if s, ok := v.(sv); ok && s.T.Sort.K == sym.KInt {
-		im = true
+func followAddr(p *value, path []int) *value {
+	for _, k := range path {
+		switch x := (*p).(type) {
+		case structure:
+			p = &x[k]
+		case array:
+			p = &x[k]
+		default:
+			panic(fmt.Sprintf("followAddr: %T", *p))
+		}
 	}
-	nv := termOf(v, im)
-	for k := range a.cells {
-		old := a.cells[k]
-		kd := kindOf(old)
-		t := sym.Ite(sym.Eq(a.idx, sym.BVConst(64, uint64(k))), nv, termOf(old, im))
-		i.set(&a.cells[k], mkScalar(t, kd))
+	return p
+}
+
+// mergeVals builds ite(idx==0, vals[0], ite(idx==1, vals[1], ...)) structurally;
+// ok is false when the values do not have a common shape.
+func mergeVals(vals []value, idx *sym.Term) (value, bool) {
+	if len(vals) == 0 {
+		return nil, false
 	}
+	sel := func(terms []*sym.Term) *sym.Term {
+		res := terms[len(terms)-1]
+		for i := len(terms) - 2; i >= 0; i-- {
+			if terms[i] == res {
+				continue
+			}
+			res = sym.Ite(sym.Eq(idx, sym.BVConst(64, uint64(i))), terms[i], res)
+		}
+		return res
+	}
+	switch v0 := vals[0].(type) {
+	case string, *symstr:
+		n := strLen(v0)
+		same := true
+		for _, v := range vals {
+			if !isStr(v) || strLen(v) != n {
+				return nil, false
+			}
+			if s0, ok := v0.(string); !ok || v != value(s0) {
+				same = false
+			}
+		}
+		if same {
+			return v0, true
+		}
+		bs := make([][]value, len(vals))
+		for i, v := range vals {
+			bs[i] = strBytes(v)
+		}
+		out := make([]value, n)
+		for k := 0; k < n; k++ {
+			ts := make([]*sym.Term, len(vals))
+			for i := range vals {
+				ts[i] = byteTerm(bs[i][k])
+			}
+			out[k] = mkScalar(sel(ts), types.Uint8)
+		}
+		return mkStr(out), true
+	case structure:
+		out := make(structure, len(v0))
+		for f := range v0 {
+			fv := make([]value, len(vals))
+			for i, v := range vals {
+				s, ok := v.(structure)
+				if !ok || len(s) != len(v0) {
+					return nil, false
+				}
+				fv[i] = s[f]
+			}
+			m, ok := mergeVals(fv, idx)
+			if !ok {
+				return nil, false
+			}
+			out[f] = m
+		}
+		return out, true
+	case array:
+		out := make(array, len(v0))
+		for f := range v0 {
+			fv := make([]value, len(vals))
+			for i, v := range vals {
+				s, ok := v.(array)
+				if !ok || len(s) != len(v0) {
+					return nil, false
+				}
+				fv[i] = s[f]
+			}
+			m, ok := mergeVals(fv, idx)
+			if !ok {
+				return nil, false
+			}
+			out[f] = m
+		}
+		return out, true
+	case iface:
+		fv := make([]value, len(vals))
+		for i, v := range vals {
+			it, ok := v.(iface)
+			if !ok || !sameType(it.t, v0.t) {
+				return nil, false
+			}
+			fv[i] = it.v
+		}
+		if v0.t == nil {
+			return v0, true
+		}
+		m, ok := mergeVals(fv, idx)
+		if !ok {
+			return nil, false
+		}
+		return iface{t: v0.t, v: m}, true
+	}
+	first := vals[0]
+	if isScalarCell(first) {
+		k := kindOf(first)
+		im := false
+		for _, v := range vals {
+			if !isScalarCell(v) || kindOf(v) != k {
+				return nil, false
+			}
+			if s, ok := v.(sv); ok && s.T.Sort.K == sym.KInt {
+				im = true
+			}
+		}
+		ts := make([]*sym.Term, len(vals))
+		for i, v := range vals {
+			ts[i] = termOf(v, im)
+		}
+		return mkScalar(sel(ts), k), true
+	}
+	// identical concrete references (same pointer, same func, nil slices…)
+	for _, v := range vals[1:] {
+		switch a := first.(type) {
+		case *value:
+			if b, ok := v.(*value); !ok || a != b {
+				return nil, false
+			}
+		case []value:
+			b, ok := v.([]value)
+			if !ok || len(a) != 0 || len(b) != 0 || (a == nil) != (b == nil) {
+				return nil, false
+			}
+		case *omap:
+			if b, ok := v.(*omap); !ok || a != b {
+				return nil, false
+			}
+		default:
+			return nil, false
+		}
+	}
+	return first, true
+}
+
+// resolveSym turns a symbolic address into a concrete one by forking on the index.
+func (fr *frame) resolveSym(a symaddr) *value {
+	w := a.idx.Sort.W
+	c, ok := fr.concretize(sv{T: a.idx, K: types.Uint64}, 0, int64(len(a.cells)-1))
+	_ = w
+	if !ok {
+		panic(rtPanic("runtime error: index out of range"))
+	}
+	return followAddr(&a.cells[c], a.path)
+}
+
+// loadSym reads through a symbolic index, merging the candidate cells when
+// they share a shape and forking on the index otherwise.
+func (fr *frame) loadSym(T types.Type, a symaddr) value {
+	vals := make([]value, len(a.cells))
+	for i, c := range a.cells {
+		vals[i] = follow(c, a.path)
+	}
+	if m, ok := mergeVals(vals, a.idx); ok {
+		return m
+	}
+	return load(T, fr.resolveSym(a))
+}
+
+func (fr *frame) storeSym(T types.Type, a symaddr, v value) {
+	if isScalarCell(v) {
+		allScalar := true
+		for _, c := range a.cells {
+			if !isScalarCell(follow(c, a.path)) {
+				allScalar = false
+			}
+		}
+		if allScalar {
+			im := false
+			if s, ok := v.(sv); ok && s.T.Sort.K == sym.KInt {
+				im = true
+			}
+			nv := termOf(v, im)
+			for k := range a.cells {
+				p := followAddr(&a.cells[k], a.path)
+				old := *p
+				kd := kindOf(old)
+				t := sym.Ite(sym.Eq(a.idx, sym.BVConst(64, uint64(k))), nv, termOf(old, im))
+				fr.i.set(p, mkScalar(t, kd))
+			}
+			return
+		}
+	}
+	fr.i.store(T, fr.resolveSym(a), v)
 }
 
 // typeAssert checks whether dynamic type of itf is instr.AssertedType.
